@@ -107,12 +107,12 @@ Qed.
 Definition apply_tev (t : table) (e : tev) : table :=
   match e with TAnn s => add_remote t s | TBye epr => t_del epr t end.
 
-Definition tevs_of (m : msg) : list tev :=
+Definition tevs_of (allow : bool) (m : msg) : list tev :=
   match m with
-  | MHello (Some iid) s => [TAnn (with_iid iid s)]
+  | MHello a s => match eff_iid allow a with Some iid => [TAnn (with_iid iid s)] | None => [] end
   | MBye epr _ => [TBye epr]
-  | MProbeMatches (Some iid) ms => map (fun s => TAnn (with_iid iid s)) ms
-  | MResolveMatches (Some iid) (Some s) => [TAnn (with_iid iid s)]
+  | MProbeMatches a ms => match eff_iid allow a with Some iid => map (fun s => TAnn (with_iid iid s)) ms | None => [] end
+  | MResolveMatches a (Some s) => match eff_iid allow a with Some iid => [TAnn (with_iid iid s)] | None => [] end
   | _ => []
   end.
 
@@ -126,6 +126,7 @@ Section Handlers.
   Variable M : mconsts.
   Variable fixed : bool.
   Variable split : bytes -> sres.
+  Variable allow : bool.
 
   Lemma probe_matches_table : forall ms t iid,
     fst (probe_matches t iid ms) = fold_left apply_tev (map (fun s => TAnn (with_iid iid s)) ms) t.
@@ -148,10 +149,11 @@ Section Handlers.
   Qed.
 
   Theorem handle_remote : forall d m,
-    remote (fst (handle M fixed split d m)) = fold_left apply_tev (tevs_of m) (remote d) /\
-    local (fst (handle M fixed split d m)) = local d.
+    remote (fst (handle M fixed split allow d m)) = fold_left apply_tev (tevs_of allow m) (remote d) /\
+    local (fst (handle M fixed split allow d m)) = local d.
   Proof.
-    intros d m. destruct m as [[iid|] s|epr bx|types scopes|[iid|] ms|epr|[iid|] [s|]|]; simpl; auto.
+    intros d m. destruct m as [a s|epr bx|types scopes|a ms|epr|a [s|]|]; simpl; auto;
+      try (destruct (eff_iid allow a) as [iid|]; simpl; auto).
     - destruct (filter_services M fixed split (t_values (local d)) types scopes); simpl; auto.
     - destruct (probe_matches (remote d) iid ms) as [t os] eqn:E. simpl. split; auto.
       rewrite <- probe_matches_table, E. reflexivity.
@@ -160,10 +162,11 @@ Section Handlers.
 
   (* ------------------------------------------------------------ Resolve is answered only for a published endpoint reference *)
   Theorem resolve_only_published : forall d m s,
-    In (OResolveMatch s) (snd (handle M fixed split d m)) ->
+    In (OResolveMatch s) (snd (handle M fixed split allow d m)) ->
     exists epr, m = MResolve epr /\ t_get epr (local d) = Some s.
   Proof.
-    intros d m s. destruct m as [[iid|] sv|epr bx|types scopes|[iid|] ms|epr|[iid|] [sv|]|]; simpl; try tauto.
+    intros d m s. destruct m as [a sv|epr bx|types scopes|a ms|epr|a [sv|]|]; simpl; try tauto;
+      try (destruct (eff_iid allow a) as [iid|]; simpl; try tauto).
     - destruct (s_xaddrs sv); simpl; [intros [H|[]]; discriminate|tauto].
     - destruct (filter_services M fixed split (t_values (local d)) types scopes); simpl; [|tauto].
       rewrite in_map_iff. intros (x & H & _). discriminate.
@@ -174,14 +177,15 @@ Section Handlers.
   Qed.
 
   Theorem resolve_published_answered : forall d epr s,
-    t_get epr (local d) = Some s -> handle M fixed split d (MResolve epr) = (d, [OResolveMatch s]).
+    t_get epr (local d) = Some s -> handle M fixed split allow d (MResolve epr) = (d, [OResolveMatch s]).
   Proof. intros d epr s H. simpl. now rewrite H. Qed.
 
   (* ProbeMatch messages are only ever sent in answer to a Probe *)
   Theorem probe_match_only_for_probe : forall d m s,
-    In (OProbeMatch s) (snd (handle M fixed split d m)) -> exists types scopes, m = MProbe types scopes.
+    In (OProbeMatch s) (snd (handle M fixed split allow d m)) -> exists types scopes, m = MProbe types scopes.
   Proof.
-    intros d m s. destruct m as [[iid|] sv|epr bx|types scopes|[iid|] ms|epr|[iid|] [sv|]|]; simpl; try tauto; eauto.
+    intros d m s. destruct m as [a sv|epr bx|types scopes|a ms|epr|a [sv|]|]; simpl; try tauto; eauto;
+      try (destruct (eff_iid allow a) as [iid|]; simpl; try tauto).
     - destruct (s_xaddrs sv); simpl; [intros [H|[]]; discriminate|tauto].
     - destruct (probe_matches (remote d) iid ms) as [t os] eqn:E. simpl. intros H.
       destruct (probe_matches_outs ms (remote d) iid (OProbeMatch s)) as [e He]; [now rewrite E|discriminate].
@@ -189,10 +193,10 @@ Section Handlers.
   Qed.
   (* ------------------------------------------------------------ a Bye ends the history of its endpoint reference, whatever else it carries *)
   Theorem bye_clears : forall d epr bx,
-    handle M fixed split d (MBye epr bx) = (mkD (t_del epr (remote d)) (local d), []) /\
-    t_get epr (remote (fst (handle M fixed split d (MBye epr bx)))) = None /\
+    handle M fixed split allow d (MBye epr bx) = (mkD (t_del epr (remote d)) (local d), []) /\
+    t_get epr (remote (fst (handle M fixed split allow d (MBye epr bx)))) = None /\
     (forall k, bytes_eqb k epr = false ->
-               t_get k (remote (fst (handle M fixed split d (MBye epr bx)))) = t_get k (remote d)).
+               t_get k (remote (fst (handle M fixed split allow d (MBye epr bx)))) = t_get k (remote d)).
   Proof.
     intros d epr bx. cbn [handle fst remote]. split; [reflexivity|]. split; [apply t_get_del_same|].
     intros k H. now apply t_get_del_other.
@@ -201,19 +205,19 @@ Section Handlers.
   (* a Probe naming a matching rule the node does not implement, with at least one scope, is not answered *)
   Theorem probe_unknown_rule : forall d types mb u us,
     is_rfc M mb = false -> is_strcmp M mb = false ->
-    handle M fixed split d (MProbe types (Some (mb, u :: us))) = (d, []).
+    handle M fixed split allow d (MProbe types (Some (mb, u :: us))) = (d, []).
   Proof. intros d types mb u us H1 H2. cbn [handle]. now rewrite filter_services_other by auto. Qed.
 End Handlers.
 
 (* ---------------------------------------------------------------- Probe: exactly the matching published services (repaired code) *)
-Theorem probe_exact : forall M split d types scopes,
-  handle M true split d (MProbe types scopes) =
+Theorem probe_exact : forall M split allow d types scopes,
+  handle M true split allow d (MProbe types scopes) =
   (d, map OProbeMatch (filter (matchesb M true split types scopes) (t_values (local d)))).
 Proof. intros. simpl. now rewrite filter_services_ret. Qed.
 
 (* ---------------------------------------------------------------- a remembered id is not acted on *)
-Theorem known_id_not_acted : forall M fixed split cap n mid m,
-  is_known (kn_ids n) mid = true -> deliver M fixed split cap n mid m = (n, []).
+Theorem known_id_not_acted : forall M fixed split allow cap n mid m,
+  is_known (kn_ids n) mid = true -> deliver M fixed split allow cap n mid m = (n, []).
 Proof. intros. unfold deliver. now rewrite H. Qed.
 
 (* ---------------------------------------------------------------- any sequence of received messages *)
@@ -221,22 +225,23 @@ Section History.
   Variable M : mconsts.
   Variable fixed : bool.
   Variable split : bytes -> sres.
+  Variable allow : bool.
 
   Fixpoint handle_all (d : dstate) (ms : list msg) : dstate :=
     match ms with
     | [] => d
-    | m :: r => handle_all (fst (handle M fixed split d m)) r
+    | m :: r => handle_all (fst (handle M fixed split allow d m)) r
     end.
 
   Lemma handle_all_remote : forall ms d,
-    remote (handle_all d ms) = fold_left apply_tev (flat_map tevs_of ms) (remote d).
+    remote (handle_all d ms) = fold_left apply_tev (flat_map (tevs_of allow) ms) (remote d).
   Proof.
     induction ms as [|m r IH]; intros d; simpl; auto.
-    rewrite IH. destruct (handle_remote M fixed split d m) as [-> _]. now rewrite fold_left_app.
+    rewrite IH. destruct (handle_remote M fixed split allow d m) as [-> _]. now rewrite fold_left_app.
   Qed.
 
   Theorem table_after_messages : forall ms epr, epr <> [] ->
-    table_entry_ok epr (rev (flat_map tevs_of ms)) (t_get epr (remote (handle_all (mkD [] []) ms))).
+    table_entry_ok epr (rev (flat_map (tevs_of allow) ms)) (t_get epr (remote (handle_all (mkD [] []) ms))).
   Proof.
     intros ms epr H. rewrite handle_all_remote. simpl remote.
     change (@nil (bytes * service)) with (table_of []). rewrite table_of_app, app_nil_r.
@@ -251,13 +256,38 @@ Section History.
     rewrite t_get_del_same. apply t_get_set_same.
   Qed.
 
-  Theorem announcement_after_bye : forall d bx iid s, s_epr s <> [] ->
-    t_get (s_epr s) (remote (handle_all d [MBye (s_epr s) bx; MHello (Some iid) s])) = Some (with_iid iid s) /\
-    t_get (s_epr s) (remote (handle_all d [MBye (s_epr s) bx; MResolveMatches (Some iid) (Some s)])) = Some (with_iid iid s) /\
-    t_get (s_epr s) (remote (handle_all d [MBye (s_epr s) bx; MProbeMatches (Some iid) [s]])) = Some (with_iid iid s).
+  Theorem announcement_after_bye : forall d bx a iid s, s_epr s <> [] -> eff_iid allow a = Some iid ->
+    t_get (s_epr s) (remote (handle_all d [MBye (s_epr s) bx; MHello a s])) = Some (with_iid iid s) /\
+    t_get (s_epr s) (remote (handle_all d [MBye (s_epr s) bx; MResolveMatches a (Some s)])) = Some (with_iid iid s) /\
+    t_get (s_epr s) (remote (handle_all d [MBye (s_epr s) bx; MProbeMatches a [s]])) = Some (with_iid iid s).
   Proof.
-    intros d bx iid s H.
+    intros d bx a iid s H E.
     pose proof (add_after_del (remote d) (with_iid iid s) H) as A. cbn [with_iid s_epr] in A.
-    repeat split; cbn [handle_all handle fst remote probe_matches]; try exact A.
+    repeat split; cbn [handle_all handle]; rewrite E; cbn [fst remote probe_matches]; try exact A.
+  Qed.
+
+  (* ------------------------------------------------------------ what makes an announcement acted on *)
+  (* an AppSequence with ANY InstanceId (0 included) is acted on, with or without the option *)
+  Theorem announcement_with_appseq : forall d iid s ms,
+    handle M fixed split allow d (MHello (Some iid) s) =
+      (mkD (add_remote (remote d) (with_iid iid s)) (local d), match s_xaddrs s with [] => [OResolve (s_epr s)] | _ => [] end) /\
+    handle M fixed split allow d (MResolveMatches (Some iid) (Some s)) =
+      (mkD (add_remote (remote d) (with_iid iid s)) (local d), []) /\
+    remote (fst (handle M fixed split allow d (MProbeMatches (Some iid) ms))) =
+      fold_left apply_tev (map (fun s => TAnn (with_iid iid s)) ms) (remote d).
+  Proof.
+    intros d iid s ms. repeat split. cbn [handle eff_iid].
+    destruct (probe_matches (remote d) iid ms) as [t os] eqn:E. cbn [fst remote].
+    rewrite <- probe_matches_table, E. reflexivity.
   Qed.
 End History.
+
+(* without AppSequence: ignored when the option is off, handled exactly like InstanceId 0 when it is on *)
+Theorem announcement_without_appseq : forall M fixed split d,
+  (forall s, handle M fixed split false d (MHello None s) = (d, [])) /\
+  (forall ms, handle M fixed split false d (MProbeMatches None ms) = (d, [])) /\
+  (forall m, handle M fixed split false d (MResolveMatches None m) = (d, [])) /\
+  (forall s, handle M fixed split true d (MHello None s) = handle M fixed split true d (MHello (Some 0) s)) /\
+  (forall ms, handle M fixed split true d (MProbeMatches None ms) = handle M fixed split true d (MProbeMatches (Some 0) ms)) /\
+  (forall m, handle M fixed split true d (MResolveMatches None m) = handle M fixed split true d (MResolveMatches (Some 0) m)).
+Proof. intros. repeat split; reflexivity. Qed.
